@@ -208,6 +208,8 @@ class Run:
             except Exception:  # noqa: BLE001 - parameters the constructor rejects are not twin material
                 self.bump(self.stats, "o6_twin_not_constructible")
                 continue
+            if hasattr(sh, "variant"):
+                twin.variant = sh.variant  # instance-level convention of the simulator's own subclass
             others = [e.obj for e in w.shells if e.obj is not sh and e.obj.angmom <= 3][:1]
             tol = op.get("twin_tol", 1e-4)
             battery = [
